@@ -371,6 +371,23 @@ func byteLevel(run *vk.Run, w *world.World, pt []byte) {
 			f := append(append([]byte{}, h.file[:off]...), h.file[off+1:]...)
 			muts = append(muts, mut{"delete-byte", f})
 		}
+		// the last character of every base64 run (arguments, body lines, the MAC) replaced by each character whose 6-bit
+		// value differs from it in the low four bits only: the spare bits of a two- or three-character last group
+		const b64abc = "ABCDEFGHIJKLMNOPQRSTUVWXYZabcdefghijklmnopqrstuvwxyz0123456789+/"
+		for off := 0; off+1 < hdrLen; off++ {
+			if nx := h.file[off+1]; nx != '\n' && nx != ' ' {
+				continue
+			}
+			v := strings.IndexByte(b64abc, h.file[off])
+			if v < 0 {
+				continue
+			}
+			for k := 1; k < 16; k++ {
+				f := append([]byte{}, h.file...)
+				f[off] = b64abc[v^k]
+				muts = append(muts, mut{"spare-bits", f})
+			}
+		}
 		// padded / non-canonical base64 on each body and the MAC line
 		lines := bytes.SplitAfter(h.file[:hdrLen], []byte("\n"))
 		for li, ln := range lines {
